@@ -52,6 +52,8 @@ def touch(name, entry):
 
 def spawn(spec):
     env = dict(os.environ)
+    if spec.get("hashseed") is not None:    # another string-hash salt: set / dict iteration orders differ
+        env["PYTHONHASHSEED"] = str(int(spec["hashseed"]))
     return subprocess.Popen([sys.executable, "-W", "ignore", "-m", "vf.isolate", json.dumps(spec)], cwd=common.VERIF_ROOT,
                             env=env, stdout=subprocess.PIPE, stderr=subprocess.PIPE, text=True)
 
